@@ -731,6 +731,33 @@ func (e *SpecEnv) call(n *ECall) SV {
 				return e.heldCall(n, false)
 			case "heldR":
 				return e.heldCall(n, true)
+			case "mapval":
+				// mapval(m, k): the raw stored value (meaningful only when k in m); usable as a trigger
+				m := e.tr(n.Args[0])
+				mt, ok := m.Ty.Underlying().(*types.Map)
+				if !ok {
+					sfail("mapval: not a map")
+				}
+				ma := e.h.mapArrs(mt)
+				return SV{T: Select(Select(e.h.arr(e.st, ma.val, ma.valS), e.val(m)), e.val(e.tr(n.Args[1]))), Ty: mt.Elem()}
+			case "mapdom":
+				// mapdom(m, k): the raw domain bit (usable as a trigger)
+				m := e.tr(n.Args[0])
+				mt, ok := m.Ty.Underlying().(*types.Map)
+				if !ok {
+					sfail("mapdom: not a map")
+				}
+				ma := e.h.mapArrs(mt)
+				return SV{T: Select(Select(e.h.arr(e.st, ma.dom, ma.domS), e.val(m)), e.val(e.tr(n.Args[1]))), Ty: tBool}
+			case "distinct":
+				var ts []*Term
+				for _, a := range n.Args {
+					ts = append(ts, e.val(e.tr(a)))
+				}
+				if len(ts) < 2 {
+					return SV{T: TTrue, Ty: tBool}
+				}
+				return SV{T: mk(SBool, "distinct", ts...), Ty: tBool}
 			case "sameArray":
 				a := e.val(e.tr(n.Args[0]))
 				b := e.val(e.tr(n.Args[1]))
